@@ -333,11 +333,13 @@ pub fn run_case(ctx: &Ctx, case: u64, ev: &mut Ev) {
         let mut zero_rows = Vec::new();
         for i in 0..m {
             if rng.chance(0.35) {
+                // exactly zero, or (one time in four) tiny but non-zero (2^-60: below f64::EPSILON): not a zero row
+                let tiny = rng.chance(0.25);
                 for v in z.mat[i].iter_mut() {
-                    *v = 0.0;
+                    *v = if tiny { 2f64.powi(-60) * if rng.chance(0.5) { 1.0 } else { -3.0 } } else { 0.0 };
                 }
                 if rng.chance(0.6) {
-                    z.bias[i] = 0.0;
+                    z.bias[i] = if tiny && rng.chance(0.5) { 2f64.powi(-60) } else { 0.0 };
                 }
             }
             if z.mat[i].iter().all(|v| *v == 0.0) && z.bias[i] == 0.0 {
@@ -354,8 +356,9 @@ pub fn run_case(ctx: &Ctx, case: u64, ev: &mut Ev) {
         let mut zero_cols = Vec::new();
         for j in 0..n {
             if rng.chance(0.35) {
+                let tiny = rng.chance(0.25);
                 for i in 0..m {
-                    zc.mat[i][j] = 0.0;
+                    zc.mat[i][j] = if tiny { 2f64.powi(-60) * if rng.chance(0.5) { 1.0 } else { -3.0 } } else { 0.0 };
                 }
             }
             if (0..m).all(|i| zc.mat[i][j] == 0.0) {
